@@ -119,3 +119,21 @@ reg("C10",
     "nested DAG that already has a flagged node (must raise the documented RuntimeError), nested DAG two levels deep} x inputs making every form truthy and falsy x {mc=1, mc=3 with EVERY completion order} x {DAG, AsyncDAG}. "
     "Oracle: reference interpreter `f(...) if flag else None` (nested DAG: no non-setup inner call, all outputs None), identical library calls. non-trivial = distinct (flag form, carrier) pairs",
     "all forms x all carriers", "same (the space is small and fully enumerated in both tiers)", PROG_ASSUME)
+
+HIST_ASSUME = ["operations of one history run one after the other on the default schedule (scheduling is quantified by the SCHED checks)",
+               "a state is the history that reaches it: every history is replayed from a freshly built DAG, no state merging"]
+reg("C11",
+    "ALL operation histories up to the depth bound over the menu {call(a), call(b), executor()(a), executor(target)(a) for 2 targets, executor(exclude)(a), setup(), setup(target) for 2 targets, deepcopy -> continue on the copy} "
+    "on 4 setup topologies {one setup node; two independent; chained; chained + independent feeding different consumers} x {DAG, AsyncDAG}, each followed by a probe call on the instance (and on the original of a copy). "
+    "Oracle after every operation: setup nodes that ran = (reference closure of the selection, setup nodes only) minus those already done on this instance; every consumer received the token produced by the FIRST run; "
+    "entry counts exact. Build-time clause: every shape N<=3 x setup placement x nodes taking the DAG argument x dependency forms is refused iff a setup node depends on a non-setup node or a DAG argument. "
+    "states = operations executed. non-trivial = histories using >= 2 different operations",
+    "depth <= 3", "depth <= 4", HIST_ASSUME)
+
+reg("C15",
+    "ALL operation histories up to the depth bound over the menu {call(a1,a2), call(a5) (default for the 2nd parameter), call(a1,BAD) (a middle node raises), call() (missing argument), e=executor(), e=executor(target), e(a1,a2), e(a1,BAD), "
+    "compose(...)+call of the composed DAG, config_from_dict (same / changed priorities), deepcopy -> continue on the copy} on 3 DAGs {linear with a defaulted parameter; diamond with a constant, a keyword edge and a parameter flag; "
+    "one with a setup node and an indexed use} x {DAG, AsyncDAG}, each followed by the probes call(p3), executor()(p3,p4) (and a probe of the original of a copy). Oracle: every operation and every probe is checked against the reference "
+    "for ITS OWN arguments (entered nodes, received arguments, returned tokens); dag.results may only gain setup results; an executed executor refuses to run again; an executor whose run failed either refuses or runs its complete selection. "
+    "states = operations executed. non-trivial = histories with >= 1 operation before the probe",
+    "depth <= 2 (all), depth 3 restricted to histories containing a failing operation and an executor run", "depth <= 3 (all)", HIST_ASSUME)
